@@ -317,6 +317,15 @@ def generate_source_code(docstring, parsed):
     return out
 
 
+def _is_expression_constructor(name):
+    # "Seq", "Opt", "Some", ... but not the submodules ("list", "rule", ...) or
+    # helpers of the expressions package: a parameter may have such a name.
+    return name[:1].isupper() and name != name.upper() and (
+        isinstance(getattr(ex, name, None), type)
+        or callable(getattr(ex, name, None))
+    )
+
+
 def _inherits_start_rule(ancestor):
     while ancestor is not None:
         for stmt in ancestor.body:
@@ -456,7 +465,11 @@ def _create_parsing_expression(tree, defined=()):
 
     if isinstance(tree, parser.Postfix) and isinstance(tree.operator, parser.ArgList):
         left, args = tree.left, tree.operator.args
-        if isinstance(left, ex.Ref) and hasattr(ex, left.name) and left.name not in defined:
+        if (
+            isinstance(left, ex.Ref)
+            and _is_expression_constructor(left.name)
+            and left.name not in defined
+        ):
             def unwrap(x):
                 return eval(x.source_code) if isinstance(x, ex.PythonExpression) else x
             return getattr(ex, left.name)(
